@@ -92,6 +92,10 @@ def cases(tier, seed):
             # structured: sampling in an outer context, a refit inside a nested context (or on another file), sampling again outside
             mid = [[TOKENS[i] for i in g.integers(0, 5, int(g.integers(0, 3)))] for _ in range(3)]
             seq = [str(g.choice(["fitA", "fitB"]))] + ["E"] + mid[0] + ["smc"] + ["E2"] + mid[1] + [str(g.choice(["fitB", "fitA", "fitBo"]))] + ["X"] + mid[2] + [str(g.choice(["smc", "is", "R"]))]
+        if tries % 3 == 1:
+            # structured: a checkpointed run, rebuild from the file, refit on the rebuilt instance, sample again
+            pre = [TOKENS[i] for i in g.integers(0, 5, int(g.integers(0, 2)))]
+            seq = [str(g.choice(["fitA", "fitB"]))] + pre + ["smc", "R"] + [str(g.choice(["fitB", "fitA", "fitBo", "fitB2"]))] + [str(g.choice(["smc", "is", "smc2"]))] + [TOKENS[i] for i in g.integers(0, 5, int(g.integers(0, 2)))]
         if valid(seq) and ("smc" in seq or "smc2" in seq):
             extra.append(seq)
     per = 12
@@ -145,6 +149,21 @@ def probe_file(path, tag, viol, counters, flow_cls):
                 "detail": f"{tag}: max |file_flow.log_prob(x) - stored log_q| = {np.max(np.abs(ref - lq)):.4g} (file proposal from fit #{flow.fit_id})",
             }
         )
+    # every population recorded in the checkpoint's history was weighted under the same proposal
+    hist = state.get("history")
+    for k, pop in enumerate(getattr(hist, "sample_history", None) or []):
+        px = np.asarray(to_np(pop.x), dtype=float)
+        plq = np.asarray(to_np(pop.log_q), dtype=float)
+        pref = np.asarray(to_np(flow.log_prob(px)), dtype=float)
+        counters["history_populations_probed"] += 1
+        if not np.allclose(pref, plq, rtol=1e-9, atol=1e-9):
+            viol.append(
+                {
+                    "mech": "C14/checkpoint-history-mixes-populations-weighted-under-different-proposals",
+                    "detail": f"{tag}: history population {k}: max |file_flow.log_prob(x) - stored log_q| = {np.max(np.abs(pref - plq)):.4g}",
+                }
+            )
+            break
     if cfgd is None:
         viol.append({"mech": "C14/checkpoint-without-config-in-file", "detail": tag})
     else:
